@@ -46,7 +46,7 @@ func cmdRun(argv []string) {
 	maxPaths := fs.Int("max-paths", 0, "max paths")
 	maxSteps := fs.Int("max-steps", 0, "max steps per path")
 	known := fs.String("known", "", "comma separated enabled known-finding exclusions")
-	timeout := fs.Int("solver-timeout-ms", 60000, "per query timeout")
+	timeout := fs.Int("solver-timeout-ms", 10000, "per query timeout (incremental z3; unknown falls back to cvc5)")
 	solver := fs.String("solver", "", "one-shot back end: cvc5-int|cvc5|z3-new")
 	verbose := fs.Bool("v", false, "print init problems")
 	cpuprof := fs.String("cpuprofile", "", "write cpu profile")
